@@ -319,6 +319,18 @@ def rule_field_map(ctx: Ctx, rule: str) -> Optional[Tuple[str, Dict[int, str]]]:
                 if v == CH or v == Call(Ext('tuple'), (CH,)):
                     m.setdefault(-1, fname)
     if cls is None:
+        # iteratively built results (e.g. a fold): the constructor terms sit in the loop summaries
+        from .terms import Loop
+        for o in outs:
+            for e in o.effects:
+                if isinstance(e, Loop):
+                    for pg, flow, binds, effs in e.paths:
+                        for _n, v in binds:
+                            if isinstance(v, New):
+                                cls = cls or v.cls
+                                for i, (fname, fv) in enumerate(f2 for f2 in v.fields if f2[0] not in ('metadata', 'data_type')):
+                                    m.setdefault(i, fname)
+    if cls is None:
         if classes_extra:
             _EXTRA[rule] = classes_extra
         return None
